@@ -253,7 +253,16 @@ def r17e(ctx):
               key_detail="constructor calls")
 
 
+def r17f(ctx):
+    """`the same noise at the same absolute times` needs one noise realisation per antenna that callers can never modify: make_noise builds
+    the master once and always hands out a with_times() copy.  C09's R09d, reported here as well."""
+    from . import c09
+    from ._cross import relay
+    relay(ctx, "R17f", "one noise realisation per antenna, handed out only as with_times() copies (= R09d)", "C09", c09.r09d, "R09d", kind="N")
+
+
 def run(ctx):
+    ctx.guard(r17f)
     ctx.guard(r17a)
     ctx.guard(r17b)
     ctx.guard(r17c)
